@@ -42,12 +42,13 @@ def prop(name, getter, cache=True, invby=()):
     return {"name": name, "getter": getter, "cache": cache, "invby": list(invby)}
 
 
-def cls(attrs, frozen=False, dnc=False, key="", props=(), bases=(), plain=False, bootstrap=False, frozen_arg=None, post_init=(), post_set=None, post_keep=None):
+def cls(attrs, frozen=False, dnc=False, key="", props=(), bases=(), plain=False, bootstrap=False, frozen_arg=None, post_init=(), post_set=None, post_keep=None, attrs_arg=None, extra_body=()):
     """frozen: what the class is (what the model reads); frozen_arg: what its decorator says (None: the same; False: nothing, i.e. inherited)"""
     return {"attrs": attrs, "frozen": frozen, "dnc": dnc, "key": key, "props": list(props), "bases": list(bases), "plain": plain,
             "bootstrap": bootstrap, "frozen_arg": frozen if frozen_arg is None else frozen_arg,
             "post_init": list(post_init), "post_set": list(post_set) if post_set else [],
-            "post_keep": list(post_keep) if post_keep else []}       # __post_init__: read these properties, then self.<a> = FN[f](self.<a>)
+            "post_keep": list(post_keep) if post_keep else [],
+            "attrs_arg": list(attrs_arg) if attrs_arg else [], "extra_body": list(extra_body)}       # attrs_arg: the decorator's attrs=[...]; extra_body: verbatim lines       # __post_init__: read these properties, then self.<a> = FN[f](self.<a>)
 
 
 def inherited(attrs):
@@ -125,6 +126,21 @@ SCENARIOS = {
         attr("a", TINT, "lit", I(0)),
         attr("b", TINT, "lit", I(0)),
     ], props=[prop("p", "a_plus_10", True, ["a"]), prop("q", "p_times_2", True, ["p"]), prop("r", "a_plus_b", True, ["*"])])}},
+    # dependants declared OUTSIDE the spec classes: on a plain mixin the spec class inherits from, and on a plain class between two spec classes
+    "inv_mixin": {"root": "P", "classes": {
+        "M": cls([], plain=True, props=[prop("p", "a_plus_10", True, ["a"])]),
+        "P": cls([attr("a", TINT, "lit", I(0)), attr("b", TINT, "lit", I(0))], bases=["M"],
+                 props=[dict(prop("p", "a_plus_10", True, ["a"]), inherited=True), prop("q", "p_times_2", True, ["p"])])}},
+    "inv_plain_between": {"root": "Leaf", "classes": {
+        "Base": cls([attr("a", TINT, "lit", I(0))]),
+        "Middle": cls([dict(attr("a", TINT, "lit", I(0)), inherited=True)], bases=["Base"], plain=True, props=[prop("p", "a_plus_10", True, ["a"])]),
+        "Leaf": cls([dict(attr("a", TINT, "lit", I(0)), inherited=True), attr("b", TINT, "lit", I(0))], bases=["Middle"],
+                    props=[dict(prop("p", "a_plus_10", True, ["a"]), inherited=True)])}},
+    # two properties both invalidated by everything: invalidating one must not come back to the other's fresh override
+    "inv_two_wild": {"root": "P", "classes": {"P": cls([
+        attr("a", TINT, "lit", I(0)),
+        attr("b", TINT, "lit", I(0)),
+    ], props=[prop("p", "a_plus_10", True, ["*"]), prop("r", "a_plus_b", True, ["*"])])}},
     "inv_attr": {"root": "P", "classes": {"P": cls([
         attr("a", TINT, "lit", I(0)),
         attr("c", TINT, "attr", I(2), invby=["a", "u"]),
@@ -194,6 +210,22 @@ SCENARIOS = {
         "Base": cls([attr("y", TINT, "lit", I(0)), attr("nums", TL(TINT), "lit", NONE, item="num")]),
         "Sub": cls([dict(attr("y", TINT, "lit", I(0)), inherited=True, redefault=S("zero")),
                     dict(attr("nums", TL(TINT), "lit", NONE, item="num"), inherited=True)], bases=["Base"], plain=True)}},
+    # the parent shares a collection of mutable items by design (do_not_copy); a decorated subclass that does not ask for that must copy it,
+    # element helpers included (they are generated on the parent and bound to ITS attribute specification)
+    "inherit_dnc_items": {"root": "Sub", "classes": {"Child": CHILD,
+        "Base": cls([attr("kids", TL(TU("Child")), "factory", L(), dnc=True, item="kid")]),
+        "Sub": cls([dict(attr("kids", TL(TU("Child")), "factory", L(), item="kid"), inherited=True), attr("m", TINT, "lit", I(1))], bases=["Base"])}},
+    # managed attributes selected by the decorator's attrs=[...] (their types still come from the annotations); one annotated attribute left unmanaged
+    "attrs_arg": {"root": "P", "classes": {"P": cls([
+        attr("n", TINT, "lit", I(0)),
+        attr("nums", TL(TINT), "factory", L(), item="num"),
+        attr("o", TOPT(TINT), "lit", NONE),
+    ], attrs_arg=["n", "nums", "o"], extra_body=["free: str = 'unmanaged'"])}},
+    # spec class -> plain class re-defaulting an attribute -> spec class: the nearest default along the MRO is the plain class's
+    "spec_plain_spec": {"root": "Leaf", "classes": {
+        "Base": cls(INH_BASE),
+        "Tuned": cls([dict(INH_BASE[0], inherited=True, redefault=I(2)), dict(INH_BASE[1], inherited=True)], bases=["Base"], plain=True),
+        "Leaf": cls([dict(INH_BASE[0], inherited=True, dv_ct=I(2)), dict(INH_BASE[1], inherited=True), attr("m", TINT, "lit", I(1))], bases=["Tuned"])}},
     "eager": {"root": "P", "classes": {"P": cls([
         attr("c", TINT, "field", I(2)),
         attr("nums", TL(TINT), "factory", L(), item="num"),
@@ -203,6 +235,11 @@ SCENARIOS = {
         attr("n", TINT, "lit", I(0)),
         attr("nums", TL(TINT), "factory", L(), item="num"),
     ], frozen=True, post_keep=("n", "inc"))}},
+    # a frozen class with a __post_copy__ hook that assigns (here: re-assigns) an attribute of the copy, as the hook is meant to
+    "frozen_post_copy_hook": {"root": "P", "classes": {"P": cls([
+        attr("n", TINT, "lit", I(0)),
+        attr("nums", TL(TINT), "factory", L(), item="num"),
+    ], frozen=True, extra_body=["def __post_copy__(self):\n    self.n = self.n"])}},
     # frozen AND do_not_copy=True: helpers would work in place, which a frozen class forbids
     "frozen_dnc": {"root": "P", "classes": {"P": cls([
         attr("n", TINT, "lit", I(0)),
@@ -244,8 +281,10 @@ def tla_scenario(scn):
     """Class table CT for spec/SpecClassOps.tla (only the fields the model reads)."""
     ct = {}
     for cname, c in scn["classes"].items():
+        if not c["attrs"]:          # (an attribute-less plain mixin: never instantiated, not part of the model's class table)
+            continue
         ct[cname] = {"attrs": [a["name"] for a in c["attrs"]],
-                     "spec": {a["name"]: {k: (a["redefault"] if k == "dv" and a.get("redefault") is not None else a[k])
+                     "spec": {a["name"]: {k: (a["dv_ct"] if k == "dv" and a.get("dv_ct") is not None else a["redefault"] if k == "dv" and a.get("redefault") is not None else a[k])
                                           for k in ("ty", "dk", "dv", "dnc", "invby", "prep", "iprep", "item")} for a in c["attrs"]},
                      "frozen": c["frozen"], "dnc": c["dnc"], "key": c["key"],
                      "props": [{k: p[k] for k in ("name", "getter", "cache", "invby")} for p in c["props"]]}
@@ -333,6 +372,8 @@ def class_src(cname, c, eager_all=False):
         dnc_attrs = [a["name"] for a in c["attrs"] if a["dnc"] and a.get("dnc_decl") != "attr"]
         if dnc_attrs and not c["dnc"]:
             args.append(f"do_not_copy={dnc_attrs!r}")
+        if c.get("attrs_arg"):
+            args.append(f"attrs={c['attrs_arg']!r}")
         if c.get("bootstrap") or eager_all:
             args.append("bootstrap=True")
         lines.append("@spec_class" + (f"({', '.join(args)})" if args else ""))
@@ -366,6 +407,7 @@ def class_src(cname, c, eager_all=False):
             body.append(f"def _prepare_{a['name']}(self, value):\n    return FN[{a['prep']!r}](value)")
         if a["iprep"] != "none":
             body.append(f"def _prepare_{a['item']}(self, value):\n    return FN[{a['iprep']!r}](value)")
+    body += list(c.get("extra_body", []))
     for p in c["props"]:
         if p.get("inherited"):
             continue
